@@ -3,16 +3,18 @@
 # Applies a patch to a scratch copy of /repo's HEAD, confirms it builds, and runs the quick checks against it
 # with VERIF_REPO pointing at the scratch copy.  The scratch copy is removed afterwards.
 set -u
+V=$(cd "$(dirname "$0")/.." && pwd)
 PATCH=$1; shift
+case "$PATCH" in -|/*) ;; *) PATCH="$PWD/$PATCH";; esac
 D=$(mktemp -d /var/tmp/verif-mut-XXXXXX)
-trap 'rm -rf "$D" /verif/build/$(python3 -c "import hashlib,sys;print(hashlib.sha1(sys.argv[1].encode()).hexdigest()[:10])" "$D/repo")' EXIT
+trap 'rm -rf "$D" "$V"/build/$(python3 -c "import hashlib,sys;print(hashlib.sha1(sys.argv[1].encode()).hexdigest()[:10])" "$D/repo")' EXIT
 git -C /repo archive --format=tar --prefix=repo/ HEAD | tar -x -C "$D"
 cd "$D/repo"
 if [ "$PATCH" = "-" ]; then patch -p1 -s; else patch -p1 -s < "$PATCH"; fi || { echo "PATCH FAILED"; exit 2; }
 export GOFLAGS=-mod=mod GOPROXY=off GOSUMDB=off
 go build ./... || { echo "MUTANT DOES NOT BUILD"; exit 2; }
 if [ "${MUT_TESTS:-0}" = "1" ]; then go test -vet=off -count=1 ./... 2>&1 | grep -v "no test files" | grep -v "^ok" ; fi
-cd /verif
+cd "$V"
 rc=0
 for P in "$@"; do
   VERIF_REPO="$D/repo" VERIF_BUDGET_S=${MUT_BUDGET:-20} VERIF_EVIDENCE_DIR="$D/evidence" python3 verif.py check $P 2>&1 | grep -E "^C[0-9]+ tier|VIOLATION|class=|HARNESS|KNOWN" | head -8
